@@ -149,6 +149,7 @@ type Interp struct {
 	side     map[string]Value
 	onceDone map[*Value]bool
 	inInit   int
+	notDir   bool
 	ptrIDs   map[*Value]int
 	reggens  map[*Value]*reggen.Generator
 	RealFS   bool
